@@ -68,6 +68,13 @@ CHECKS = {
             'through the constructor, the file entry or both: twins agree, the file entry overrides the constructor, all pairs of distinct seeds differ.',
             'States are the distinct engine states reached; depth bound as stated; tolerance 1e-12 for matrix validity.',
             'DESIGN.md section 3 C15'),
+    'C07': ('exploration', 'E1',
+            'bounded exhaustive enumeration of slab/fault configurations (all tuples within 3 deviations | full product) built as twin worlds with culling on and off (GWB_VERIF switch), and of value-point layouts for depth surfaces against a full triangle scan',
+            'Every slab/fault of the alphabet (7 coordinate settings incl. high latitudes, dateline and meridional trenches; 4 trench shapes; dips 1..179; min depth 0..200 km; growing thickness) is '
+            'built twice in one process, with the computed culling bounds and with infinite ones, and compared bit-for-bit on a lattice that reaches three times (length+thickness) around the trench and '
+            'below the deepest possible point. Objects::Surface::local_value is compared with a long-double scan of all its triangles for every value-point layout of the alphabet, also through the longitude alias.',
+            'The un-accelerated evaluation is the same code with infinite bounds, so a defect shared by both paths is not visible here (geometry itself is C04/C06).',
+            'DESIGN.md section 3 C07'),
 }
 NOT_YET = {}
 
